@@ -15,6 +15,7 @@ import OFV.Proofs.C04Iop2
 import OFV.Proofs.C04Dch
 import OFV.Proofs.C04Rev4
 import OFV.Proofs.C04JFinal
+import OFV.Proofs.C04RevInv
 
 namespace OFV.C04
 open OFV OFV.Spec OFV.Model OFV.Model.C04 OFV.Sem
@@ -229,6 +230,29 @@ theorem reverse_jw_left_inverse (tol : Rat) (htol : tol * tol ≤ 1 / 4) (A : Mo
   rw [reverse_jw_sound tol htol _ (jwFermion_canon_valid tol htol A) hok2 m x]
   exact jw_exact tol htol A hA hok1 m x
 
+/-- `reverse_jordan_wigner` only emits creation and annihilation operators (every QubitOperator, no hypothesis) -/
+theorem reverse_jw_ladder (tol : Rat) (Q : Model.Op) : ∀ tc ∈ reverseJW tol Q, ∀ f ∈ tc.1, f.2 ≤ 1 :=
+  Jel.reverseJW_keys tol Q
+
+/-- **`jordan_wigner` inverts `reverse_jordan_wigner`**: for every QubitOperator `Q` (any number of canonical
+Pauli strings of `X`, `Y`, `Z` factors, any complex coefficients), `jordan_wigner(reverse_jordan_wigner(Q))` acts
+on every basis state exactly like `Q` — on every exact run of both transforms (flags evaluated by the driver). -/
+theorem reverse_jw_right_inverse (tol : Rat) (htol : tol * tol ≤ 1 / 4) (Q : Model.Op)
+    (hQ : ∀ tc ∈ Q, SortedQ tc.1 ∧ (∀ f ∈ tc.1, f.2 < 4)) (hok1 : reverseJWOk tol Q = true)
+    (hok2 : jwFermionOk tol (reverseJW tol Q) = true) (m x : Nat) :
+    GV.coeff (applyOp .qubit (jwFermion tol (reverseJW tol Q)) [m]) [x] = GV.coeff (applyOp .qubit Q [m]) [x] := by
+  rw [jw_exact tol htol _ (reverse_jw_ladder tol Q) hok2 m x]
+  exact reverse_jw_sound tol htol Q hQ hok1 m x
+
+/-- term level: a single Pauli string `c · σ_{q1} … σ_{qk}` (canonical, factors `X`/`Y`/`Z`) -/
+theorem reverse_jw_right_inverse_term (tol : Rat) (htol : tol * tol ≤ 1 / 4) (t : List (Nat × Nat)) (c : GQ)
+    (hS : SortedQ t) (hV : ∀ f ∈ t, f.2 < 4) (hok1 : reverseJWOk tol [(t, c)] = true)
+    (hok2 : jwFermionOk tol (reverseJW tol [(t, c)]) = true) (m x : Nat) :
+    GV.coeff (applyOp .qubit (jwFermion tol (reverseJW tol [(t, c)])) [m]) [x]
+      = GV.coeff (applyOp .qubit [(t, c)] [m]) [x] :=
+  reverse_jw_right_inverse tol htol [(t, c)]
+    (by intro tc h; simp only [List.mem_singleton] at h; subst h; exact ⟨hS, hV⟩) hok1 hok2 m x
+
 /-! ### dual-basis jellium: the direct Jordan-Wigner form over the exact index structure -/
 
 /-- **`Grid.orbital_id` / `Grid.grid_indices` / `all_points_indices`** (every dimension, all lengths): the grid
@@ -412,6 +436,17 @@ example :
     ∧ C04J.jwJelliumDirectOk Generated.eqTolerance l true kin pot (some ⟨mkRat 7 4, 0⟩) = true
     ∧ C04J.dualBasisModelOk Generated.eqTolerance l true kin pot (some ⟨mkRat 7 4, 0⟩) = true := by
   refine ⟨by decide +kernel, by decide +kernel, by decide +kernel, by decide +kernel, by decide +kernel⟩
+
+/-- hypotheses of `reverse_jw_right_inverse` on a concrete QubitOperator with `X`, `Y`, `Z` strings and complex
+coefficients (kernel-evaluated) -/
+example :
+    let Q : Model.Op := [([(0, 1), (1, 3), (3, 2)], ⟨mkRat 1 2, -1⟩), ([(2, 3)], ⟨0, 2⟩), ([(1, 2), (2, 1)], ⟨-3, 0⟩)]
+    (∀ tc ∈ Q, SortedQ tc.1 ∧ (∀ f ∈ tc.1, f.2 < 4))
+      ∧ reverseJWOk Generated.eqTolerance Q = true
+      ∧ jwFermionOk Generated.eqTolerance (reverseJW Generated.eqTolerance Q) = true := by
+  refine ⟨?_, by decide +kernel, by decide +kernel⟩
+  unfold SortedQ
+  decide +kernel
 
 /-- exact-regime hypotheses of `reverse_jw_left_inverse` on a concrete operator (kernel-evaluated) -/
 example :
